@@ -215,6 +215,38 @@ pub fn zero_weight_scenarios(prop: &str, planners: &[Pk]) -> Vec<Scenario> {
     out
 }
 
+/// Scenario family "a component that weighs MORE than the others": [R^2, SO(2)] with weights (1, 3) and
+/// (0.25, 3), SE(2) with weight 3 - a planner that measures with anything but the space's own metric
+/// (unsquared weights, squared distances compared with plain ones) steps too far or links too much.
+pub fn heavy_weight_scenarios(prop: &str, planners: &[Pk]) -> Vec<Scenario> {
+    let a = |x: f64, y: f64, t: f64| cmp_r2so2(x, y, t);
+    let alphabet = vec![a(0.5, 2.0, 0.0), a(0.5, 2.0, 0.4), a(1.5, 2.0, 0.0), a(1.5, 2.0, 1.5), a(2.5, 2.0, -0.3), a(2.5, 2.4, 1.5), a(3.5, 2.0, 0.0), a(3.5, 2.0, 0.2), a(1.5, 3.2, 0.5), a(0.5, 2.0, 0.0), a(1.0, 2.0, 0.1)];
+    let mut out = Vec::new();
+    let r2 = Spec::Rv { dim: 2, bounds: Some(vec![(0.0, 4.0), (0.0, 4.0)]), frac: None };
+    let variants: Vec<(&'static str, Spec, &str)> = vec![
+        ("Compound", Spec::Cmp { parts: vec![r2.clone(), Spec::So2 { bounds: None, frac: None }], weights: vec![1.0, 3.0] }, "w1-3"),
+        ("Compound", Spec::Cmp { parts: vec![r2.clone(), Spec::So2 { bounds: None, frac: None }], weights: vec![0.25, 3.0] }, "w.25-3"),
+        ("SE2", Spec::Se2 { weight: 3.0, bounds: Some(vec![(0.0, 4.0), (0.0, 4.0), (-PI, PI)]) }, "w3"),
+    ];
+    for (kit, spec, wn) in variants {
+        let b = base_of(kit);
+        for &pk in planners {
+            for sm in [0.5, 1.0] {
+                for (wname, obst) in [("free", vec![]), ("ball", vec![ObstSpec::Ball(a(2.0, 2.0, 0.0), 0.32)])] {
+                    let mut sc = b.scenario(WorldSpec { name: wname.into(), obst }, b.params(pk, if pk == Pk::Prm { 1.6 } else { sm }, 2.5, 0.0), &format!("{prop}/{kit}/heavy-weight-{wn}/{wname}/{}x{sm}", pk.name()));
+                    sc.spec = spec.clone();
+                    sc.alphabet = alphabet.clone();
+                    sc.start = alphabet[0].clone();
+                    sc.goal_balls = vec![(alphabet[6].clone(), 0.3)];
+                    sc.goal_samples = vec![alphabet[6].clone(), alphabet[7].clone()];
+                    out.push(sc);
+                }
+            }
+        }
+    }
+    out
+}
+
 pub fn base_cmp() -> Base {
     Base {
         kit: "Compound",
